@@ -74,6 +74,19 @@ PROPS = {
                         "vectors longer than 2 entries."),
         "trusted_base": [KANI_TRUST, OS_TRUST],
     },
+    "C15": {
+        "level": "other",
+        "design_ref": "DESIGN.md section 5, C15",
+        "summary": ("Child-process configuration: validate_named_text and validate_count are proved for every cap value; "
+                    "ProcessCommand::validate is checked against the conjunction of the configured limits written from the property "
+                    "statement for EVERY ProcessCaps value, with the accepted spec required to BE the builder's own "
+                    "program/args/cwd/env/stdin (pointer identity: same count, order, bytes); builder operations, clone_into/promote "
+                    "byte preservation and the host-policy gate (ProcessDenied before validate and before any spawn) by bounded harnesses."),
+        "not_covered": ("that std::process::Command execs the program directly without a shell, and its argument/environment "
+                        "marshalling (documented std behaviour, assumed); commands with more than 2 arguments / 2 environment pairs "
+                        "are covered by uniformity of the loops, not by enumeration."),
+        "trusted_base": [KANI_TRUST, OS_TRUST, "std::process::Command passes program/args/env/cwd to the child unchanged and without a shell (assumed)"],
+    },
 }
 
 
